@@ -1010,12 +1010,13 @@ fn trigger_update<M: AsRef<[Machine]>>(
                     "\ttrigger_update(): update timer action {:?} {:?}",
                     duration, machine
                 );
-                // get current internal timer duration, if any
-                let current =
-                    state.scheduled_internal_timer[machine.into_raw()].unwrap_or(*current_time);
+                // get current internal timer, if any
+                let current = state.scheduled_internal_timer[machine.into_raw()];
 
-                // update the timer
-                if *replace || current < *current_time + *duration {
+                // update the timer: always if replacing or if no timer is
+                // running (also for a zero duration), otherwise only if the
+                // new expiry is later than the current one
+                if *replace || current.map_or(true, |c| c < *current_time + *duration) {
                     state.scheduled_internal_timer[machine.into_raw()] =
                         Some(*current_time + *duration);
                     // TimerBegin event
